@@ -81,9 +81,19 @@ def build_corpus(tier, rng):
         else:
             it.attr_delims = {"braces": [1], "brackets": [2], "mixed": [0, 1, 2]}[form]
         items.append(("attr-forms", it))
+    # a payload whose Default PANICS (hp.rs `Boom`): every variant in front of it (from either end) is still yielded; a DISABLED variant with
+    # such a payload does not matter at all
+    items.append(("panicking-default", Item("E", [Variant("Open", "unit"), Variant("Close", "named", [Field("u8", "id")]), Variant("Gone", "tuple", [Field("Boom")], [DISABLED]),
+                                                  Variant("Bad", "tuple", [Field("u8"), Field("Boom")]), Variant("Pair", "tuple", [Field("String")]), Variant("Last", "unit")])))
+    items.append(("panicking-default", Item("E", [Variant("A", "unit"), Variant("Gone", "named", [Field("Boom", "b")], [DISABLED]), Variant("B", "tuple", [Field("u8")])])))
     for fam, it in items:
         k = c.add_def(it, family=fam, derives=["EnumIter", "EnumCount"])
         n = len(it.variants)
+        if fam == "panicking-default":
+            c.add_q(k, "ctor", ["front"], note="ctor")
+            c.add_q(k, "ctor", ["back"], note="ctor")
+            continue
+
         c.add_q(k, "iter", [], note="collect")
         c.add_q(k, "struct", ["EnumIter"], note="structure")
         c.add_q(k, "count", [], note="count")
@@ -114,6 +124,19 @@ def compare(corpus, k, kind, args, note, iobs, mobs, cfg):
     if kind == "struct":
         return S.compare_struct(corpus, k, iobs, mobs)
     it = corpus.defs[k]
+    if kind == "ctor":
+        en = [(i, v) for i, v in enumerate(it.variants) if not v.has("disabled")]
+        if args[0] != "front":
+            en = list(reversed(en))
+        want = []
+        for i, v in en:
+            if any(f.ty == "Boom" for f in v.fields):
+                want.append("panic")
+                break
+            want.append("v%d" % i)
+        else:
+            want.append("none")
+        return iobs == ";".join(want), True, "expected %s" % ";".join(want)
     if kind in ("iterops", "adapt"):
         mobs = dict(p.split("=", 1) for p in mobs.split("|"))["debug"]
     if kind == "iter":
